@@ -162,9 +162,9 @@ theorem allFitB_sound (ps : List Param) (h : allFitB ps = true) : ∀ p ∈ ps, 
     · subst hx; exact h.1
     · exact ih h.2 x hx
 
-def fitsB (E : List EncField) (d : Nat → FVal) : Bool := allFitB (recordParams E d)
+def fitsB (e : End) (E : List EncField) (d : Nat → FVal) : Bool := allFitB (recordParams e E d)
 
-theorem fitsB_sound (E : List EncField) (d : Nat → FVal) (h : fitsB E d = true) : FitsU16 E d :=
+theorem fitsB_sound (e : End) (E : List EncField) (d : Nat → FVal) (h : fitsB e E d = true) : FitsU16 e E d :=
   allFitB_sound _ h
 
 
